@@ -140,6 +140,9 @@ async fn stall(a: &[String]) -> Vec<String> {
     let k = arg_usize(a, 2).min(90);
     let pos = arg(a, 3).to_string();
     let order = arg(a, 4).to_string();
+    // optional: datagrams the peer sends first and the application never asks for (it keeps
+    // accepting streams but does not call `receive_datagram`)
+    let unread_dgrams = arg(a, 5).parse::<usize>().unwrap_or(0).min(64);
 
     let rt = match TestRt::new(arg(a, 0)) {
         Ok(rt) => rt,
@@ -224,6 +227,10 @@ async fn stall(a: &[String]) -> Vec<String> {
         });
         let (c, s) = (conn.clone(), sh.clone());
         let dgram_loop = tokio::spawn(async move {
+            if unread_dgrams > 0 {
+                drop((c, s));
+                return "unasked".to_string();
+            }
             loop {
                 match tokio::time::timeout_at(deadline, c.receive_datagram()).await {
                     Err(_) => break "timeout".to_string(),
@@ -260,6 +267,16 @@ async fn stall(a: &[String]) -> Vec<String> {
     let raw_side = async {
         let mut client = RawClient::session(port, &RawOpts::default()).await?;
         let mut keep: Keep = vec![];
+        if unread_dgrams > 0 {
+            for i in 0..unread_dgrams {
+                let d = wire::wt_datagram(0, &[0x31, i as u8]);
+                client
+                    .conn
+                    .send_datagram(bytes::Bytes::from(d))
+                    .map_err(|e| format!("send_datagram:{e}"))?;
+            }
+            tokio::time::sleep(Duration::from_millis(100)).await;
+        }
         for (n, item) in seq.iter().enumerate() {
             if n > 0 {
                 tokio::time::sleep(Duration::from_millis(STALL_GAP_MS)).await;
@@ -355,7 +372,7 @@ async fn stall(a: &[String]) -> Vec<String> {
                 let s = lock(&sh);
                 let want_uni = 3 + usize::from(has_extra && uni_kind);
                 let want_bi = 3 + usize::from(has_extra && !uni_kind);
-                if s.uni.len() >= want_uni && s.bi.len() >= want_bi && !s.dgrams.is_empty() {
+                if s.uni.len() >= want_uni && s.bi.len() >= want_bi && (!s.dgrams.is_empty() || unread_dgrams > 0) {
                     break;
                 }
             }
@@ -395,7 +412,7 @@ async fn stall(a: &[String]) -> Vec<String> {
     let close = match app_res {
         Ok(Ok((cu, cb, cd, keep))) => {
             drop(keep);
-            if cu == cb && cb == cd {
+            if cu == cb && (cb == cd || cd == "unasked") {
                 cu
             } else {
                 format!("{cu},{cb},{cd}")
@@ -596,6 +613,10 @@ async fn accept_pace(a: &[String]) -> Vec<String> {
     let delay_ms = arg_u64(a, 4).min(1000);
     let cancel = arg(a, 5) == "1";
     let seed = arg_u64(a, 6);
+    // optional: before every `abandon`-th stream the client abandons an opening of the same kind
+    // (`open_*().await` dropped before it is awaited: quinn ends the stream without a byte of
+    // preamble) — not a stream of the session, and nothing the other streams may notice
+    let abandon = arg(a, 7).parse::<usize>().unwrap_or(0);
     let fail = |e: String| {
         vec![
             format!("uni=0/{n_uni}"),
@@ -661,6 +682,19 @@ async fn accept_pace(a: &[String]) -> Vec<String> {
                 let Ok(_permit) = sem.acquire_owned().await else {
                     return;
                 };
+                if abandon > 0 && i % abandon == 0 {
+                    if uni {
+                        match bounded(conn.open_uni()).await {
+                            Some(Ok(opening)) => drop(opening),
+                            _ => note_err(&sh, "client:abandon_open_uni".into()),
+                        }
+                    } else {
+                        match bounded(conn.open_bi()).await {
+                            Some(Ok(opening)) => drop(opening),
+                            _ => note_err(&sh, "client:abandon_open_bi".into()),
+                        }
+                    }
+                }
                 if let Err(e) = pace_open_one(conn, uni, i as u64).await {
                     note_err(&sh, format!("client:{e}"));
                 }
@@ -1045,6 +1079,14 @@ fn gen_c07(thorough: bool, rng: &mut Rng, emit: &mut dyn FnMut(&str, Vec<String>
                     }
                 }
             }
+            for k in [0usize, 1, 2, 4] {
+                for pos in ["nobyte", "partial", "full_silence", "unread"] {
+                    let nd = [1usize, 2, 3, 9, 40][rng.below(5) as usize];
+                    let order = *rng.pick(&orders);
+                    let rt = *rng.pick(&RTS);
+                    emit("stall", vec![s(rt), s(kind), s(k), s(pos), s(order), s(nd)]);
+                }
+            }
         }
         }
         return;
@@ -1070,6 +1112,15 @@ fn gen_c07(thorough: bool, rng: &mut Rng, emit: &mut dyn FnMut(&str, Vec<String>
             for pos in poss {
                 rot += 1;
                 put(emit, vec![s(RTS[rot % 2]), s(kind), s(k), s(pos), s(orders[rot % 3])]);
+            }
+        }
+    }
+    // datagrams nobody asks for (more than the datagram queue holds) next to the stalled streams
+    for kind in kinds {
+        for (k, pos) in [(0usize, "nobyte"), (1, "partial"), (2, "full_silence")] {
+            for nd in [1usize, 2, 3, 9] {
+                rot += 1;
+                put(emit, vec![s(RTS[rot % 2]), s(kind), s(k), s(pos), s(orders[rot % 3]), s(nd)]);
             }
         }
     }
@@ -1118,9 +1169,11 @@ fn gen_c08(thorough: bool, rng: &mut Rng, emit: &mut dyn FnMut(&str, Vec<String>
             let nb = rng.range(0, 120) as usize;
             let t = rng.range(1, 8) as usize;
             let d = rng.range(0, 6);
+            // a third of them with abandoned openings in between
+            let ab = if rng.below(3) == 0 { rng.range(1, 12) } else { 0 };
             emit(
                 "accept.pace",
-                vec![s(*rng.pick(&RTS)), s(nu), s(nb), s(t), s(d), s(rng.below(2)), s(rng.below(1_000_000))],
+                vec![s(*rng.pick(&RTS)), s(nu), s(nb), s(t), s(d), s(rng.below(2)), s(rng.below(1_000_000)), s(ab)],
             );
         }
         return;
@@ -1151,6 +1204,14 @@ fn gen_c08(thorough: bool, rng: &mut Rng, emit: &mut dyn FnMut(&str, Vec<String>
                 ],
             );
         }
+        // abandoned openings among the session's streams
+        flip += 1;
+        let (t, d, c) = (*rng.pick(&tasks), *rng.pick(&delays), rng.below(2));
+        let ab = [1usize, 3, 10][rng.below(3) as usize];
+        emit(
+            "accept.pace",
+            vec![s(RTS[flip % 2]), s(nu), s(nb), s(t), s(d), s(c), s(rng.below(1_000_000)), s(ab)],
+        );
     }
 }
 
